@@ -22,6 +22,9 @@ import (
 func TestC08(t *testing.T) {
 	run := vk.New("C08", "hooks-ctx")
 	defer run.Finish()
+	if run.Shard == 0 {
+		emptyValuesAndClearedHooks(run)
+	}
 	h := prog.NewHarness(run, "ctx")
 	defer h.Dog.Stop()
 	after := func(eng *prog.Engine) {
